@@ -77,6 +77,8 @@ def make_history(base, cfg, r, n_commits=None, kind=None):
     con.execute("PRAGMA synchronous=OFF")
     keeper = sqlite3.connect(work, isolation_level=None)   # keeps the WAL alive on close
     keeper.execute("PRAGMA wal_autocheckpoint=0")
+    if kind == "empty_out":
+        con.execute("PRAGMA secure_delete=ON")      # freed cells are zeroed: an emptied page ends in a long run of zero bytes
     tables = {}
     fresh_mark = [mx_frame(work)]
 
